@@ -276,7 +276,7 @@ def choose_one(rng, H, sh, profile):
 
 def raw_item(rng, sh, sids, tys):
     """one raw message for the receiver: a serialised frame, as is or damaged (truncated, IGNORE flag set and truncated, a flipped bit,
-    unknown frame type, random bytes, empty)"""
+    unknown frame type, random bytes, empty, reserved bits set)"""
     from harness.engine import build_frame
     spec = {'ty': rng.choice(tys), 'sid': rng.choice(sids + [sh.peer_next_id]), 'data': sh.fresh(rng.choice([0, 1, 2])), 'n': rng.choice([0, 1, 3]),
             'code': rng.choice([1, 2, 257, 513, 514, 515]), 'complete': rng.random() < 0.3, 'follows': rng.random() < 0.1, 'respond': rng.random() < 0.3}
@@ -284,7 +284,17 @@ def raw_item(rng, sh, sids, tys):
         b = bytearray(build_frame(spec).serialize())
     except Exception:
         b = bytearray(b'\x00\x00\x00\x01\x28\x20x')
-    mode = rng.choice(['asis', 'asis', 'trunc', 'trunc', 'ign-trunc', 'ign-trunc', 'ign', 'flip', 'flip', 'random', 'unknown', 'type0', 'empty'])
+    mode = rng.choice(['asis', 'asis', 'trunc', 'trunc', 'ign-trunc', 'ign-trunc', 'ign', 'flip', 'flip', 'random', 'unknown', 'type0', 'empty', 'reserved', 'reserved'])
+    if mode == 'reserved':
+        # the reserved top bit of a 31- / 63-bit field set: the first field behind the header (KEEPALIVE position, request-n, LEASE ttl,
+        # ERROR code, SETUP version) or the stream id; a KEEPALIVE asks to be echoed
+        if rng.random() < 0.5:
+            spec = dict(spec, ty='KEEPALIVE', sid=0, respond=True)
+            b = bytearray(build_frame(spec).serialize())
+        if len(b) > 6 and rng.random() < 0.8:
+            b[6] |= 0x80
+        elif b:
+            b[0] |= 0x80
     if mode in ('trunc', 'ign-trunc') and len(b) > 1:
         if mode == 'ign-trunc' and len(b) > 4:
             b[4] |= 0x02
